@@ -408,6 +408,11 @@ func Loops(fn *ssa.Function) []*Loop {
 		idx := bin.X
 		l := &Loop{Header: b, Body: Edge{b, 0}, Exit: Edge{b, 1}, Over: over, Index: idx}
 		l.Complete = inductionFromZero(idx)
+		if phi, isPhi := idx.(*ssa.Phi); isPhi && l.Complete {
+			// the values the induction variable takes, for origin queries that
+			// look through the phi (a counter handed to an expanded helper)
+			l.IndexVals = append(l.IndexVals, phi.Edges...)
+		}
 		if cell, vals, ok := counterCell(idx); ok {
 			l.IndexCell, l.IndexVals, l.Complete = cell, vals, true
 			// element: over[load(cell)] inside the loop
